@@ -38,11 +38,13 @@ Definition cput (c : cache) (es : list lentry) : cache :=
 Definition slice (l : list lentry) (s e : nat) : list lentry := firstn (e - s) (skipn s l).
 
 (* cache.get: cached entries of the range, the sub-range to read before them, the sub-range to read after them *)
-Definition cget (c : cache) (r : lrange) : list lentry * lrange * lrange :=
+(* [below_is_miss]: a range ending exactly at the smallest cached index is a miss (the tree as repaired); false = the
+   original comparison (smallest > LastIndex), see Mutants/LogReaderMutants.v *)
+Definition cget_gen (below_is_miss : bool) (c : cache) (r : lrange) : list lentry * lrange * lrange :=
   match buf c with
   | [] => ([], r, rzero)
   | _ =>
-      if rlast r <? smallest c then ([], r, rzero)
+      if (if below_is_miss then rlast r <=? smallest c else rlast r <? smallest c) then ([], r, rzero)
       else if largest c <? rfirst r then ([], rzero, r)
       else
         let s := find_index (fun x => rfirst r <=? x) (buf c) in
@@ -56,6 +58,7 @@ Definition cget (c : cache) (r : lrange) : list lentry * lrange * lrange :=
             (es, pre, app)
         end
   end.
+Definition cget := cget_gen true.
 
 (* ---- the Raft log as the reader sees it ---- *)
 Record rlog := { marker : N; lents : list lentry }.     (* lents: entries marker+1 .. last, ascending and consecutive *)
@@ -97,10 +100,10 @@ Section Reader.
     if rfirst r =? rlast r then inl [] else read_log l r mx.
 
   (* Cached.QueryRaftLog *)
-  Definition cached_query_gen (keep_first : bool) (c : cache) (l : rlog) (r : lrange) (mx : N) : (list lentry + qerr) * cache :=
+  Definition cached_query_gen2 (keep_first below_is_miss : bool) (c : cache) (l : rlog) (r : lrange) (mx : N) : (list lentry + qerr) * cache :=
     let fx := fix_size_gen keep_first in
     if rfirst r =? rlast r then (inl [], c) else
-    let '(ces, pre, app) := cget c r in
+    let '(ces, pre, app) := cget_gen below_is_miss c r in
     if is_set pre then
       match read_log l pre mx with
       | inr e => (inr e, c)
@@ -124,6 +127,7 @@ Section Reader.
           end
       end
     else (inl (fx ces mx), c).
+  Definition cached_query_gen (keep_first : bool) := cached_query_gen2 keep_first true.
   Definition cached_query := cached_query_gen true.
 
   (* ---- LogServer.Replicate ---- *)
